@@ -559,35 +559,46 @@ impl WorldSpec {
 }
 
 pub fn build_world(spec: &WorldSpec) -> (World, Store) {
+    let mut s = Store::default();
+    let w = build_world_in(&mut s, spec);
+    (w, s)
+}
+
+/// Build a group with banks and users inside an existing store (the fee state is global: it is
+/// initialised only if it does not exist yet). Used for the foreign group of the substitution tests.
+pub fn build_world_in(s: &mut Store, spec: &WorldSpec) -> World {
     crate::svm::init();
     let n = &spec.name;
-    let mut s = Store::default();
     let payer = key(&format!("{n}:payer"));
     let fee_admin = key("global:fee_admin");
     let fee_wallet = key("global:fee_wallet");
     let mint_auth = key("global:mint_auth");
-    fund(&mut s, &payer, RICH);
-    fund(&mut s, &fee_admin, RICH);
-    fund(&mut s, &fee_wallet, 1_000_000_000);
-    fund(&mut s, &mint_auth, RICH);
+    fund(s, &payer, RICH);
+    if s.get(&fee_admin).is_none() {
+        fund(s, &fee_admin, RICH);
+        fund(s, &fee_wallet, 1_000_000_000);
+        fund(s, &mint_auth, RICH);
+    }
 
-    must(
-        &mut s,
-        Tx::one(
-            ix::init_global_fee_state(
-                payer,
-                fee_admin,
-                fee_wallet,
-                spec.bank_init_flat_sol_fee,
-                spec.liquidation_flat_sol_fee,
-                spec.program_fee_fixed.into(),
-                spec.program_fee_rate.into(),
-                spec.liquidation_max_fee.into(),
+    if s.get(&ix::fee_state_key()).is_none() {
+        must(
+            s,
+            Tx::one(
+                ix::init_global_fee_state(
+                    payer,
+                    fee_admin,
+                    fee_wallet,
+                    spec.bank_init_flat_sol_fee,
+                    spec.liquidation_flat_sol_fee,
+                    spec.program_fee_fixed.into(),
+                    spec.program_fee_rate.into(),
+                    spec.liquidation_max_fee.into(),
+                ),
+                &[payer],
             ),
-            &[payer],
-        ),
-        "init_global_fee_state",
-    );
+            "init_global_fee_state",
+        );
+    }
 
     let group = key(&format!("{n}:group"));
     let roles = GroupRoles {
@@ -600,34 +611,24 @@ pub fn build_world(spec: &WorldSpec) -> (World, Store) {
         risk: key(&format!("{n}:risk_admin")),
     };
     for k in [roles.admin, roles.emode, roles.curve, roles.limit, roles.emissions, roles.metadata, roles.risk] {
-        fund(&mut s, &k, RICH);
+        fund(s, &k, RICH);
     }
-    must(&mut s, Tx::one(ix::group_initialize(group, roles.admin), &[roles.admin, group]), "group init");
-    must(&mut s, Tx::one(ix::group_configure(group, roles.admin, &roles, None, None), &[roles.admin]), "group configure");
+    must(s, Tx::one(ix::group_initialize(group, roles.admin), &[roles.admin, group]), "group init");
+    must(s, Tx::one(ix::group_configure(group, roles.admin, &roles, None, None), &[roles.admin]), "group configure");
     if !spec.program_fees_enabled {
-        must(&mut s, Tx::one(ix::config_group_fee(group, fee_admin, false), &[fee_admin]), "config group fee");
+        must(s, Tx::one(ix::config_group_fee(group, fee_admin, false), &[fee_admin]), "config group fee");
     }
 
-    let mut w = World {
-        payer,
-        fee_admin,
-        fee_wallet,
-        mint_auth,
-        group,
-        roles,
-        banks: vec![],
-        users: vec![],
-        mints: BTreeMap::new(),
-    };
+    let mut w = World { payer, fee_admin, fee_wallet, mint_auth, group, roles, banks: vec![], users: vec![], mints: BTreeMap::new() };
 
     for bs in &spec.banks {
-        add_bank_to_world(&mut s, &mut w, n, bs);
+        add_bank_to_world(s, &mut w, n, bs);
     }
 
     for u in &spec.users {
-        add_user(&mut s, &mut w, n, u, spec.user_funding_whole);
+        add_user(s, &mut w, n, u, spec.user_funding_whole);
     }
-    (w, s)
+    w
 }
 
 pub fn add_bank_to_world(s: &mut Store, w: &mut World, n: &str, bs: &BankSpec) -> usize {
